@@ -21,6 +21,8 @@ LEAN_TARGETS = ["RxProofs.C34"]
 DRIVER = "drv_thr2"
 DRIVER_ROOT = "Thr2"
 THEOREMS = [
+    "C34.shared_loop_safe",
+    "C34.remove_by_due_time_disposes_wrong_item",
     "C34.never_before_due",
     "C34.disposed_before_due_never_starts",
     "C34.start_flags",
@@ -46,11 +48,16 @@ LEVEL_TEXT = ("Lean theorems over finite atomic-step models of one action on a t
               "reaching the due time): for every schedule of any length the action never starts before its due time and "
               "never starts when disposed before its due time; the reachable set is computed and checked closed and safe "
               "by decide in the kernel, then lifted to all schedules by induction. ImmediateScheduler: runs synchronously iff "
-              "the delay is not positive, else WouldBlock. Tied to the code by step-for-step replay of controlled real runs "
+              "the delay is not positive, else WouldBlock. Any number of actions on one event-loop thread: invariant proof "
+              "(`shared_loop_safe`). Tied to the code by step-for-step replay of controlled real runs "
               "and an enumerative <=k-preemption search with the property oracle.")
-LEVEL_NOTE = ("One action per model instance; several actions sharing one EventLoopScheduler thread are covered by the oracle "
-              "and the search only (the multi-item event loop is C31's model). The clock is abstracted to 'due reached'; "
-              "to_seconds/to_datetime conversions are C36's.")
+LEVEL_NOTE = ("Single-action models are finite and checked by kernel-computed reachability; several actions sharing one "
+              "EventLoopScheduler thread are covered by `shared_loop_safe`, an invariant proof for ANY number of items, heap "
+              "order and due times (items queued with positive delays before the loop's first turn; the loop reads each item's "
+              "own is_cancelled()), replayed against real runs with 2-4 items; `remove_by_due_time_disposes_wrong_item` shows "
+              "at model level why dispose must flag the item instead of PriorityQueue.remove (== on due time). Items scheduled "
+              "while the loop is already turning are covered by the oracle and the search only. The clock is abstracted to "
+              "'due reached'; to_seconds/to_datetime conversions are C36's (absolute due times in non-UTC zones are generated).")
 
 KINDS = ["timeout", "newthread", "threadpool", "eventloop"]
 
@@ -76,6 +83,24 @@ def cases(rng, tier):
         nitems = rng.choice([1, 1, 1, 2, 3])
         sc = {"type": "single" if nitems == 1 else "multi", "sched": kind,
               "items": [gen_item(rng, rng.choice([0, 0, 1]) if i else 0) for i in range(nitems)]}
+        k = fw.key(sc)
+        if k not in base:
+            r0 = T.run_case(dict(sc, first=0, pre=[]))
+            base[k] = (r0["steps"], r0["nthreads"])
+        S, nt = max(2, base[k][0]), base[k][1]
+        npre = rng.choice([0, 1, 2, 2, 3])
+        steps = sorted(rng.sample(range(S), min(npre, S)))
+        sc["first"] = 0
+        sc["pre"] = [[s, rng.randrange(nt)] for s in steps]
+        yield sc
+    # several relative actions queued at time 0 on ONE EventLoopScheduler thread: replayed in the n-item model
+    for _ in range(fw.tier_scale(tier, 120, 1200)):
+        nitems = rng.choice([2, 2, 3, 4])
+        items = []
+        for i in range(nitems):
+            d = rng.choice([1, 1, 2, 2, 3])
+            items.append({"how": "rel", "delay": d, "at": 0, "disp": rng.choice([None, None, d - 1, d - 1, d, d + 1, 0])})
+        sc = {"type": "shared", "sched": "eventloop", "items": items}
         k = fw.key(sc)
         if k not in base:
             r0 = T.run_case(dict(sc, first=0, pre=[]))
@@ -151,6 +176,9 @@ def impl(case):
     if case["type"] == "single" and r["outcome"] == "ok":
         cfg, evs = T.project(case, r)
         out["cfg"], out["events"] = cfg, evs
+    if case["type"] == "shared" and r["outcome"] == "ok":
+        _req, labels = T.project_shared(case, r)
+        out["shared_labels"] = labels
     return out
 
 
@@ -161,6 +189,9 @@ def model_request(case):
         if case["how"] == "relative":
             return {"op": "imm", "how": "relative", "delay": case["delay_us"]}
         return {"op": "imm", "how": "absolute", "due": case["delay_us"], "now": 0}
+    if case["type"] == "shared":
+        r = _run(case)
+        return T.project_shared(case, r)[0] if r["outcome"] == "ok" else None
     if case["type"] != "single":
         return None
     r = _run(case)
@@ -173,6 +204,10 @@ def model_request(case):
 def canon_impl(case, out):
     if case["type"] == "imm":
         return out["imm"]
+    if case["type"] == "shared":
+        if "shared_labels" not in out:
+            return {"outcome": out["outcome"]}
+        return {"labels": out["shared_labels"], "started": [bool(s) for s in out["starts"]]}
     if "events" not in out:
         return {"outcome": out["outcome"]}
     return {"labels": [e[1] for e in out["events"]], "started": bool(out["starts"][0])}
@@ -183,6 +218,9 @@ def canon_model(case, resp):
         return resp
     if "error" in resp:
         return resp
+    if case["type"] == "shared":
+        # the bottom step's label says whether the head was due; the real run shows it only through what follows
+        return {"labels": ["bottom" if l.startswith("bottom-") else l for l in resp["labels"]], "started": resp["started"]}
     return {"labels": resp["labels"], "started": resp["started"]}
 
 
